@@ -16,7 +16,9 @@ LF, CR, A, E2, ZH, EMO = "\n", "\r", "a", "é", "中", "\U0001F600"
 # characters at the edges of the UTF-8 byte classes (0x7F, first / last continuation byte 0x80 / 0xBF in every
 # position, first and last code point of every encoded length) and the line-break look-alikes that are NOT line breaks
 EDGE = ["\x7f", "\u0080", "\u00bf", "\u00ff", "\u07ff", "\u0800", "\ufeff", "\uffff", "\U00010000", "\U0010ffff",
-        "\u0085", "\u2028", "\x0b", "\x0c", "\t"]
+        "\u0085", "\u2028", "\x0b", "\x0c", "\t",
+        # code points whose low byte is LF / CR (a truncating cast would take them for line breaks)
+        "\u010a", "\u010d", "\u4e0a", "\u200a"]
 
 
 class CountSet:
